@@ -69,6 +69,77 @@ func nativeMethods() []nativeMethod {
 	return out
 }
 
+// recurseCode is a contract whose only action is to call itself (dynamic APPCALL of its own script
+// hash): the depth of nested engines must stay bounded whatever gas the transaction brings.
+func recurseCode() []byte {
+	a := chain.NewAsm().Push([]byte("c12-recurse")).Op(neovm.DROP)
+	a.Syscall("System.ExecutionEngine.GetExecutingScriptHash")
+	a.AppCall(common.Address{})
+	return a.Bytes()
+}
+
+// nativeSweep: for every method of every native contract, argument byte strings that open with a huge
+// element COUNT in each encoding the native decoders use (native var-uint = var-bytes holding a
+// little-endian integer; plain var-uint), bare, after one address, and inside a var-bytes envelope,
+// followed by a few bytes only.  A decoder must fail on the missing data, not loop or allocate by the count.
+func nativeSweep() []kase {
+	counts := [][]byte{{0x08, 0xff, 0xff, 0xff, 0xff, 0xff, 0xff, 0xff, 0x7f}, {0x08, 0, 0, 0, 0, 0, 0, 0, 0x40}, {0x05, 0xff, 0xff, 0xff, 0xff, 0x00}, {0x04, 0xff, 0xff, 0xff, 0x7f},
+		{0xff, 0xff, 0xff, 0xff, 0xff, 0xff, 0xff, 0xff, 0x7f}, {0xfe, 0xff, 0xff, 0xff, 0x7f}}
+	var out []kase
+	ms := nativeMethods()
+	// (1) STRUCT arguments: BuildParamToNative writes the fields of a struct one after the other as
+	// var-bytes, which is exactly the stream the native decoders read field by field; an integer-valued
+	// byte string is a native var-uint.  Fields before the hostile count: none / address / empty lists.
+	ints := [][]byte{{0xff, 0xff, 0xff, 0xff, 0xff, 0xff, 0xff, 0x7f}, {0, 0, 0, 0, 0, 0, 0, 0x40}, {0xff, 0xff, 0xff, 0xff, 0x00}, {0x00, 0x00, 0x10}}
+	addr := make([]byte, 20)
+	addr[0] = 0x42
+	pres := [][][]byte{{}, {addr}, {{}}, {addr, {}}, {addr, {}, {}}, {addr, addr}}
+	for ii, iv := range ints {
+		for pi, pre := range pres {
+			fields := append(append([][]byte{}, pre...), iv, []byte{0x01})
+			for _, m := range ms {
+				a := chain.NewAsm()
+				a.PushInt(int64(len(fields))).Op(neovm.NEWSTRUCT)
+				for fi, f := range fields {
+					a.Op(neovm.DUP).PushInt(int64(fi)).Push(f).Op(neovm.SETITEM)
+				}
+				a.Push([]byte(m.method)).Push(m.addr[:]).PushInt(0).Syscall("Ontology.Native.Invoke")
+				out = append(out, kase{"neovm", fmt.Sprintf("native-sweep/struct/i%d/p%d", ii, pi), a.Bytes(), ""})
+			}
+		}
+	}
+	// (2) BYTE-STRING arguments (written as one var-bytes envelope, which ontfs-style decoders unwrap first)
+	// templates outermost, methods innermost: a run that cannot hold the whole sweep drops templates, never methods
+	for ci, cnt := range counts {
+		// what precedes the hostile count: nothing / an address / k empty lists / address + k empty lists
+		for pre := 0; pre < 4; pre++ {
+			for env := 0; env < 2; env++ {
+				var inner []byte
+				if pre == 1 || pre >= 4 {
+					inner = append(append(inner, 0x14), make([]byte, 20)...)
+				}
+				switch pre {
+				case 2, 4:
+					inner = append(inner, 0x00)
+				case 3, 5:
+					inner = append(inner, 0x00, 0x00)
+				}
+				inner = append(append(inner, cnt...), 0x01, 0x00)
+				body := inner
+				if env == 1 { // var-bytes envelope around the whole argument
+					body = append([]byte{byte(len(inner))}, inner...)
+				}
+				for _, m := range ms {
+					a := chain.NewAsm()
+					a.Push(body).Push([]byte(m.method)).Push(m.addr[:]).PushInt(0).Syscall("Ontology.Native.Invoke")
+					out = append(out, kase{"neovm", fmt.Sprintf("native-sweep/c%d/p%d/e%d", ci, pre, env), a.Bytes(), ""})
+				}
+			}
+		}
+	}
+	return out
+}
+
 type g struct {
 	r  *vf.RNG
 	kv common.Address
@@ -270,7 +341,19 @@ func (x *g) neovmCase() kase {
 	case k < 14: // native method with structured random arguments
 		ms := nativeMethods()
 		m := ms[x.r.Intn(len(ms))]
-		switch x.r.Intn(4) {
+		switch x.r.Intn(6) {
+		case 4, 5: // a huge element COUNT in the encodings native decoders use, followed by little or no data,
+			// bare and wrapped in a var-bytes envelope (ontfs, governance, ontid lists): the decoder must
+			// fail on the missing data, not loop or allocate by the count
+			cnt := [][]byte{{0x08, 0xff, 0xff, 0xff, 0xff, 0xff, 0xff, 0xff, 0x7f}, {0x08, 0, 0, 0, 0, 0, 0, 0, 0x40}, {0x05, 0xff, 0xff, 0xff, 0xff, 0x00},
+				{0x04, 0xff, 0xff, 0xff, 0x7f}, {0x03, 0x00, 0x00, 0x10}, {0xff, 0xff, 0xff, 0xff, 0xff, 0xff, 0xff, 0xff, 0x7f}, {0xfe, 0xff, 0xff, 0xff, 0x7f}}[x.r.Intn(7)]
+			body := append(append([]byte{}, x.r.Bytes(x.r.Intn(3)*20)...), cnt...) // sometimes an address or two first
+			body = append(body, x.r.Bytes(x.r.Intn(24))...)
+			if x.r.Bool() {
+				env := []byte{byte(len(body))}
+				body = append(env, body...)
+			}
+			a.Push(body)
 		case 0:
 			a.Push(x.r.Bytes(x.r.Intn(120)))
 		case 1: // hostile length prefixes inside a byte-array argument
@@ -284,7 +367,37 @@ func (x *g) neovmCase() kase {
 		a.Push([]byte(m.method)).Push(m.addr[:]).PushInt(int64(x.r.Intn(3))).Syscall("Ontology.Native.Invoke")
 		return kase{"neovm", "native/" + m.addr.ToHexString()[38:], a.Bytes(), ""}
 	case k < 16: // resource extremes
-		switch x.r.Intn(7) {
+		switch x.r.Intn(10) {
+		case 7: // unbounded contract-to-contract recursion: the deployed self-calling contract, and mutual calls through the KV contract
+			rc := common.AddressFromVmCode(recurseCode())
+			for i := x.r.Intn(3); i > 0; i-- {
+				x.scalar(a)
+			}
+			a.AppCall(rc)
+			return kase{"neovm", "self-calling-contract", a.Bytes(), ""}
+		case 8, 9: // containers that double per round: a struct / array / map appended or set into (a clone of) itself
+			rounds := []int{8, 16, 24, 40, 64, 200}[x.r.Intn(6)]
+			switch x.r.Intn(3) {
+			case 0:
+				a.PushInt(0).Op(neovm.NEWSTRUCT)
+				for i := 0; i < rounds; i++ {
+					a.Op(neovm.DUP).Op(neovm.DUP).Op(neovm.APPEND)
+				}
+			case 1:
+				a.PushInt(1).Op(neovm.NEWSTRUCT)
+				for i := 0; i < rounds; i++ {
+					a.Op(neovm.DUP).PushInt(0).PushInt(2).Op(neovm.PICK).Op(neovm.SETITEM)
+				}
+			default:
+				a.PushInt(2).Op(neovm.NEWSTRUCT).PushInt(1).Op(neovm.PACK)
+				for i := 0; i < rounds; i++ {
+					a.Op(neovm.DUP).Op(neovm.DUP).PushInt(0).Op(neovm.PICKITEM).Op(neovm.APPEND)
+				}
+			}
+			if x.r.Chance(50) {
+				x.sink(a)
+			}
+			return kase{"neovm", "doubling-container", a.Bytes(), ""}
 		case 0:
 			a.PushInt(int64([]int{1024, 1025, 65536, 1 << 30}[x.r.Intn(4)])).Op(neovm.NEWARRAY)
 		case 1:
